@@ -59,8 +59,10 @@ class Sink(StreamWrapper):
 def make_tree(root):
     files = {}
     os.makedirs(os.path.join(root, "src", "sub", "deep"))
+    # (a directory whose name ends with a dot; a file name that is not valid UTF-8: tar stores bytes, the names must survive)
+    os.makedirs(os.path.join(root, "src", "v1."))
     for name, size in [("a.txt", 0), ("b.bin", 1), ("sub/c.bin", 511), ("sub/d.bin", 512), ("sub/deep/e.bin", 513), ("f.bin", rng.randint(600, 70000)),
-                       ("g_" + "x" * 120 + ".bin", 1500)]:
+                       ("g_" + "x" * 120 + ".bin", 1500), ("v1./inner.txt", 20), (os.fsdecode(b"caf\xe9.txt"), 33), ("trailing.", 5)]:
         data = bytes(rng.getrandbits(8) for _ in range(size))
         with open(os.path.join(root, "src", name), "wb") as f:
             f.write(data)
